@@ -49,8 +49,18 @@ func DropScopes(prefix string) {
 	if !strings.HasSuffix(prefix, ".") {
 		prefix += "."
 	}
-	top := stats.CreateScope(prefix)
-	for i := 0; i < 12; i++ {
-		stats.DeleteScope(top)
+	// (the store deletes a parent whose count reaches one before its children's counts have: go through every
+	// scope under the prefix, not only through the children lists)
+	for round := 0; round < 16; round++ {
+		left := 0
+		for _, s := range stats.Scopes() {
+			if strings.HasPrefix(s.Name(), prefix) {
+				stats.DeleteScope(s)
+				left++
+			}
+		}
+		if left == 0 {
+			return
+		}
 	}
 }
